@@ -25,6 +25,7 @@ sys.path.insert(0, os.path.join(ROOT, "tools"))
 
 K_BETA_TOL = "specialized-near-vertical-beta-tolerance"
 K_LINK = "specialized-indirect-link-range-interpolation"
+K_LOG1 = "specialized-log1-cancellation"
 C = O.C_LIGHT
 
 
@@ -114,6 +115,8 @@ def z_uniform_of(p):
 
 def within(v, refs, rel, abs_):
     """v lies in the hull of refs widened by rel/abs (nan matches nan)."""
+    if math.isinf(abs_):
+        return True
     v = float(v)
     refs = [float(r) for r in refs]
     if math.isnan(v):
@@ -127,6 +130,50 @@ def within(v, refs, rel, abs_):
     w = abs_ + rel * max(abs(lo), abs(hi), abs(v))
     return lo - w <= v <= hi + w
 
+
+
+# ---------------------------------------------------------------------------- error model of the log_term_1 cancellation
+def log1_delta(icep, beta, z):
+    """Worst-case |error of ln(log_term_1)| at depth z from evaluating
+        log_term_1 = (n0 n_z - beta^2) - sqrt(alpha gamma)
+    in binary64.  Rounding: fl(n0 n_z) - fl(beta^2) carries <= 1 ulp(n0 n_z); alpha and gamma carry relative errors
+    <= 3u n0^2/alpha and 3u n_z^2/gamma (u = 2^-53), their product and the square root add 1.5u, so sqrt(alpha gamma)
+    (which is ~ n0 n_z) carries <= (1.5 + 1.5 (n0^2/alpha + n_z^2/gamma)) ulp(n0 n_z); the final subtraction is exact up to
+    1/2 ulp of the small result.  Absolute error E <= (2.5 + 1.5 (n0^2/alpha + n_z^2/gamma)) ulp(n0 n_z)   [5.5 ulp for small beta].
+    The exact value is computed without cancellation through theorem log1_stable:
+        log_term_1 = beta^2 (k e^{a z})^2 / (n0 n_z - beta^2 + sqrt(alpha gamma)),
+    so |delta ln| <= -ln(1 - E / log_term_1) (infinite when E >= log_term_1: every digit can be lost)."""
+    n0, k, a = icep["n0"], icep["k"], icep["a"]
+    n = nprof(icep, z)
+    al = n0 * n0 - beta * beta
+    g = n * n - beta * beta
+    if beta <= 0 or al <= 0 or g <= 1e-9 * n * n:
+        return 0.0          # at the turning depth sqrt(alpha gamma) vanishes: no cancellation there
+    x = n0 * n - beta * beta
+    log1 = (beta * k * math.exp(a * z)) ** 2 / (x + math.sqrt(al * g))
+    err = math.ulp(n0 * n) * (2.5 + 1.5 * (n0 * n0 / al + n * n / g))
+    r = err / log1 if log1 > 0 else float("inf")
+    return float("inf") if r >= 1 else -math.log1p(-r)
+
+
+def log1_bound(icep, beta, legs, zu):
+    """Bound B = (radial distance, path length, tof) of the effect of the cancellation on one solution: the shallow closed
+    forms are evaluated at every segment endpoint that lies at or above z_uniform, and at z_uniform itself when the
+    segment crosses it; each evaluation contributes delta ln / a times the prefactor beta/sqrt(alpha), n0/sqrt(alpha),
+    n0^2/(c sqrt(alpha))."""
+    if beta <= 0.005 * (1 - 1e-6) or beta >= icep["n0"]:
+        return np.zeros(3)       # |beta| <= beta_tolerance: the code does not evaluate the logarithms
+    n0, a = icep["n0"], icep["a"]
+    A = math.sqrt(n0 * n0 - beta * beta)
+    tot = 0.0
+    for (za, zb, cut) in legs:
+        lo, hi = min(za, zb), max(za, zb)
+        pts = [z for z in (za, zb) if z >= zu and not (cut and z == zb)]
+        if lo < zu <= hi:
+            pts.append(zu)
+        for z in pts:
+            tot += log1_delta(icep, beta, z)
+    return tot / a * np.array([beta / A, n0 / A, n0 * n0 / (A * C)])
 
 # ---------------------------------------------------------------------------- correspondence A: formulas
 def corr_formulas(ctx, escalate=1):
@@ -208,6 +255,11 @@ def corr_formulas(ctx, escalate=1):
                 zz = m.get("z", None)
                 if m["fn"] != "_int_terms" and not m.get("deep") and m["beta"] > 0:
                     zs = [zz] if zz is not None else [m["z0"], m["z1"], m["zu"]]
+                    if m["beta"] > 0.005 * (1 + 1e-6) and m["beta"] < p["n0"]:
+                        # a 1-ulp libm difference in exp() moves n_z by an ulp and log_term_1 by the cancellation noise
+                        pref = {"distance": m["beta"], "pathlen": p["n0"], "tof": p["n0"] ** 2 / C}[m["fn"].split(":")[-1]]
+                        dl = sum(log1_delta(p, m["beta"], zq) for zq in zs)
+                        tol_abs += (pref / math.sqrt(p["n0"] ** 2 - m["beta"] ** 2) * dl / p["a"]) if math.isfinite(dl) else float("inf")
                     for zq in zs:
                         n = nprof(p, zq)
                         g = n * n - m["beta"] ** 2
@@ -219,7 +271,7 @@ def corr_formulas(ctx, escalate=1):
                 if m["fn"] == "_int_terms" and j >= 2:
                     n = nprof(p, zz)
                     g = abs(n * n - m["beta"] ** 2)
-                    tol_abs = 1e-13 + 16 * math.ulp(p["n0"] ** 2)
+                    tol_abs = 1e-13 + 16 * math.ulp(p["n0"] ** 2) * (1 + p["n0"] ** 2 / max(abs(p["n0"] ** 2 - m["beta"] ** 2), 1e-300) + n * n / max(g, 1e-300) if j == 3 else 1)
                     tol_rel = 1e-10 + 64 * math.ulp(1.0) * p["n0"] ** 2 / max(g, 1e-300)
                 if not within(y, [x], tol_rel, tol_abs):
                     ok = False
@@ -340,9 +392,13 @@ def darboux_allowance(icep, beta, legs, dz):
     return tot
 
 
+LAST_B = {}
+
+
 def judge(ctx, tracer, dz, icep, g, paths, tr, stats):
     """Judge every returned path against the property.  Returns list of (key, what)."""
     out = []
+    LAST_B.clear()
     fp, tp = endpoints(g)
     n0, k, a = icep["n0"], icep["k"], icep["a"]
     zu = z_uniform_of(icep)
@@ -438,19 +494,24 @@ def judge(ctx, tracer, dz, icep, g, paths, tr, stats):
                 tol[2] += 1.01 * fac * T
         else:
             tol += darboux_allowance(icep, beta, legs, dz)
+        B = log1_bound(icep, beta, legs, zu) if tracer == "SpecializedRayTracer" else np.zeros(3)
+        LAST_B[i] = [float(x) for x in B]
         got = np.array([rho, float(p.path_length), float(p.tof)])
         err = np.abs(np.array([R, L, T]) - got)
         stats.setdefault("max_excess", {})
         for j, nm in enumerate(("arrival", "path_length", "tof")):
             key = "%s:%s" % (tracer, nm)
             kf = tracer == "SpecializedRayTracer" and nm == "arrival" and (beta <= 0.005 * (1 + 1e-6) or (not p.direct and root_low > max_angle - 1.000001e-6))
-            if not kf:
+            if not kf and not (B[j] > tol[j]):
                 stats["max_excess"][key] = max(stats["max_excess"].get(key, 0.0), float(err[j] / tol[j]) if np.isfinite(err[j]) else float("inf"))
-            if not (err[j] <= tol[j]):
+            if not (err[j] <= tol[j] + (B[j] if B[j] <= tol[j] else 0.0)):
                 what = ("solution %d (%s): %s of the ray launched in the reported direction is %r but the tracer reports %r "
                         "(|difference| %.3g > tolerance %.3g); beta=%r: %s" % (
                             i, "direct" if p.direct else "indirect", nm, [R, L, T][j], got[j], err[j], tol[j], beta, tag))
-                if tracer == "SpecializedRayTracer" and beta <= 0.005 * (1 + 1e-6) and nm == "arrival":
+                if B[j] > tol[j] and (err[j] <= tol[j] + B[j] or math.isinf(B[j])):
+                    stats["log1_cancellation_cases"] = stats.get("log1_cancellation_cases", 0) + 1
+                    out.append((K_LOG1, what + " [within the worst-case bound %.3g of the log_term_1 cancellation]" % B[j]))
+                elif tracer == "SpecializedRayTracer" and beta <= 0.005 * (1 + 1e-6) and nm == "arrival":
                     out.append((K_BETA_TOL, what))
                 elif tracer == "SpecializedRayTracer" and not p.direct and root_low > max_angle - 1.000001e-6 and nm == "arrival":
                     out.append((K_LINK, what))
@@ -466,7 +527,7 @@ KINDS = ["shallow", "deep", "cross", "vertical", "shadow"]
 def probes_and_e2e(ctx, do_model=True, escalate=1):
     rng = ctx.rng
     n_spec = ctx.n(80, 500) * escalate
-    n_basic = ctx.n(5, 40) * escalate
+    n_basic = ctx.n(10, 40) * escalate
     stats = {"geometries": {}, "solutions": 0, "no_solution": 0, "tracer_exception": 0}
     e2e_cases, e2e_expect, e2e_meta = [], [], []
     plan = [("SpecializedRayTracer", 1.0, n_spec)] + [("BasicRayTracer", dz, n_basic) for dz in (0.1, 1.0, 5.0)]
@@ -509,13 +570,14 @@ def probes_and_e2e(ctx, do_model=True, escalate=1):
                 continue
             stats["solutions"] += len(paths)
             for key, what in judge(ctx, tracer, dz, icep, g, paths, tr, stats):
-                full = key if key in (K_BETA_TOL, K_LINK) else "%s:%s:%s:%r:%r:%r" % (key, tracer, icep["cls"], g["z_from"], g["z_to"], g["rho"])
+                full = key if key in (K_BETA_TOL, K_LINK, K_LOG1) else "%s:%s:%s:%r:%r:%r" % (key, tracer, icep["cls"], g["z_from"], g["z_to"], g["rho"])
                 ctx.fail(full, what, rec)
             # ---- end-to-end correspondence: the model evaluated at the reported launch angle
             if do_model and len(e2e_cases) < ctx.n(6000, 24000):
                 fp, tp = endpoints(g)
                 pre = "sPath" if tracer == "SpecializedRayTracer" else "bPath"
-                for p in paths:
+                for ip, p in enumerate(paths):
+                    Bp = LAST_B.get(ip, [0.0, 0.0, 0.0])
                     th0 = float(p.theta0)
                     variants = [th0, float(np.nextafter(th0, 10)), float(np.nextafter(th0, -10))]
                     vals = {"path_length": float(p.path_length), "tof": float(p.tof), "beta": float(p.beta),
@@ -524,7 +586,8 @@ def probes_and_e2e(ctx, do_model=True, escalate=1):
                         for v in variants:
                             e2e_cases.append("pr (M.%s_%s %s)" % (pre, q, mk_path(fp, tp, v, icep, dz, bool(p.direct))))
                         e2e_expect.append((q, vals[q]))
-                        e2e_meta.append({"tracer": tracer, "dz": dz, "ice": icep, "g": g, "direct": bool(p.direct), "theta0": th0, "q": q})
+                        e2e_meta.append({"tracer": tracer, "dz": dz, "ice": icep, "g": g, "direct": bool(p.direct), "theta0": th0, "q": q,
+                                         "B": {"path_length": Bp[1], "tof": Bp[2]}.get(q, 0.0)})
                     for q, vec in (("emitted_direction", p.emitted_direction), ("received_direction", p.received_direction)):
                         for v in variants:
                             e2e_cases.append("pr3 (M.%s_%s %s)" % (pre, q, mk_path(fp, tp, v, icep, dz, bool(p.direct))))
@@ -538,7 +601,7 @@ def probes_and_e2e(ctx, do_model=True, escalate=1):
                         for v in (root, root + 3e-12, root - 3e-12):
                             e2e_cases.append("pr (" + fn % (mk_tracer(fp, tp, icep, dz), rx.ocf(v), rx.ocf(0.0)) + ")")
                         e2e_expect.append(("root", g["rho"]))
-                        e2e_meta.append({"tracer": tracer, "dz": dz, "ice": icep, "g": g, "direct": bool(p.direct), "theta0": th0, "q": "brentq_root", "root": root})
+                        e2e_meta.append({"tracer": tracer, "dz": dz, "ice": icep, "g": g, "direct": bool(p.direct), "theta0": th0, "q": "brentq_root", "root": root, "B": Bp[0]})
         stats.setdefault("wall_s", {})["%s dz=%s" % (tracer, dz)] = round(time.time() - t_start, 1)
     ctx.extra["probe"] = stats
     ctx.extra["probe_tolerances"] = (
@@ -560,15 +623,15 @@ def probes_and_e2e(ctx, do_model=True, escalate=1):
                 if q == "brentq_root":
                     vals = [t[0] for t in trip]
                     # rho lies between the model's distance just left and right of the reported root
-                    good = within(val, vals, 1e-9, 1e-9) or (m["direct"] is False and abs(vals[0] - val) <= 1e-6 * max(1.0, val))
+                    good = within(val, vals, 1e-9, 1e-9 + 2 * m.get("B", 0.0)) or (m["direct"] is False and abs(vals[0] - val) <= 1e-6 * max(1.0, val))
                     if not good and m["root"] > 0 and not m["direct"]:
                         good = None    # the link_range interpolation / peak neighbourhood: informational
                 elif q.endswith("direction"):
                     good = all(within(val[j], [t[j] for t in trip], 1e-9, 1e-12) for j in range(3))
                 elif q == "tof":
-                    good = within(val, [t[0] for t in trip], 1e-9, 1e-18)
+                    good = within(val, [t[0] for t in trip], 1e-9, 1e-18 + 2 * m.get("B", 0.0))
                 else:
-                    good = within(val, [t[0] for t in trip], 1e-9, 1e-9)
+                    good = within(val, [t[0] for t in trip], 1e-9, 1e-9 + 2 * m.get("B", 0.0))
             ctx.case(key=("e2e", q, m["tracer"], m["dz"], m["theta0"], json.dumps(m["g"], sort_keys=True)),
                      sample={"case": m, "model": trip, "impl": val})
             if good is None:
@@ -589,7 +652,7 @@ def fixed_findings(ctx):
     stats = {}
     for g in ({"kind": "vertical", "z_from": -2000.0, "z_to": -100.0, "rho": 2.0, "phi": 0.3, "x0": 0.0, "y0": 0.0},
               {"kind": "vertical", "z_from": -300.0, "z_to": -100.0, "rho": 0.5, "phi": 1.0, "x0": 5.0, "y0": -5.0},
-              # the design-time F10 geometry (cancellation in log_term_1): fixed in the pyrex tree
+              # the witness of the open finding F10 (cancellation in log_term_1): always evaluated
               {"kind": "cross", "z_from": -2000.0, "z_to": -100.0, "rho": 10.0, "phi": 0.0, "x0": 0.0, "y0": 0.0},
               {"kind": "cross", "z_from": -100.0, "z_to": -1500.0, "rho": 25.0, "phi": 2.0, "x0": 0.0, "y0": 0.0}):
         tr = make_tracer("SpecializedRayTracer", g, icep, 1.0)
@@ -599,7 +662,7 @@ def fixed_findings(ctx):
         rec = {"kind": "geometry", "tracer": "SpecializedRayTracer", "dz": 1.0, "ice": icep, "g": g}
         ctx.case(key=("fixed", json.dumps(g, sort_keys=True)))
         for key, what in judge(ctx, "SpecializedRayTracer", 1.0, icep, g, paths, tr, stats):
-            full = key if key in (K_BETA_TOL, K_LINK) else "%s:%s:%s:%r:%r:%r" % (key, "SpecializedRayTracer", icep["cls"], g["z_from"], g["z_to"], g["rho"])
+            full = key if key in (K_BETA_TOL, K_LINK, K_LOG1) else "%s:%s:%s:%r:%r:%r" % (key, "SpecializedRayTracer", icep["cls"], g["z_from"], g["z_to"], g["rho"])
             ctx.fail(full, what, rec)
 
 
